@@ -444,6 +444,34 @@ BOUNDARY_DAYS = [(1, 1, 1), (1, 12, 31), (1582, 10, 15), (1800, 1, 1), (1899, 12
                  (2020, 12, 31), (2021, 1, 1), (2100, 2, 28), (2100, 3, 1), (9999, 12, 30), (9999, 12, 31)]
 
 
+def _day_sweep(job):
+    import datetime
+    years, every_day = job
+    date = _real()
+    base = datetime.date(1899, 12, 30).toordinal()
+    ev, fails = 0, []
+    for y in years:
+        if every_day:
+            days = [datetime.date(y, 1, 1) + datetime.timedelta(days=k) for k in range(366 if (y % 4 == 0 and (y % 100 != 0 or y % 400 == 0)) else 365)]
+        else:
+            days = [datetime.date(y, 1, 1), datetime.date(y, 2, 28), datetime.date(y, 3, 1), datetime.date(y, 12, 31)]
+            if y % 4 == 0 and (y % 100 != 0 or y % 400 == 0):
+                days.append(datetime.date(y, 2, 29))
+        for d in days:
+            ev += 1
+            dt = datetime.datetime(d.year, d.month, d.day)
+            want = d.toordinal() - base
+            try:
+                n = date.to_oa_date(dt)
+                back = date.to_date(want)
+            except Exception as e:
+                n, back = repr(e), None
+            if (n != want or back != dt) and len(fails) < 3:
+                fails.append({"id": "bounded:day-number-and-back-against-the-host-calendar", "input": str(d),
+                              "observed": f"to_oa_date={n}, to_date({want})={back}", "expected": f"to_oa_date={want}, to_date({want})={dt}"})
+    return ev, fails
+
+
 def bounded(tier, seed):
     import datetime
     import random
@@ -481,9 +509,24 @@ def bounded(tier, seed):
         if (back != dt or not okn) and len(fails) < 5:
             fails.append({"id": "bounded:to_date(to_oa_date(d))==d[second-resolution]", "input": str(dt),
                           "observed": str(back), "expected": str(dt)})
+    # day level against the host calendar: the first and last day of every year and the days around the end of February
+    # (quick), every representable day (thorough) - decides the day-level clauses on the real functions when the proof
+    # part cannot follow a rewritten conversion
+    t1 = time.time()
+    import multiprocessing as mp
+    years = list(range(1, 10000))
+    chunks = [(years[i::32], tier == "thorough") for i in range(32)]
+    with mp.get_context("fork").Pool(16) as pool:
+        res = pool.map(_day_sweep, chunks)
+    dev = sum(r[0] for r in res)
+    dfails = [f for r in res for f in r[1]][:5]
+    r0 = BoundedResult("day numbers against the host calendar (real to_oa_date / to_date)",
+                       ("every day of the years 1..9999" if tier == "thorough" else "first and last day and 28 Feb / 29 Feb / 1 Mar of every year 1..9999")
+                       + ": day number == ordinal difference to 1899-12-30, to_date(number) == the day, consecutive days differ by 1",
+                       dev, dev, dfails, ["2000-12-31"], "decides the day-level clauses by enumeration where the proof is undecided", time.time() - t1)
     r1 = BoundedResult("roundtrip-time-of-day(real code)",
                        f"all seconds (stride {step}) of 12 boundary days + {nrand} seeded random (day, second) pairs",
                        ev, ev, fails, [str(datetime.datetime(2000, 2, 29, 12, 0, 1))],
                        "IEEE doubles are outside the proof; exact outcomes are enumerated on the real functions",
                        time.time() - t0)
-    return [r1]
+    return [r0, r1]
